@@ -155,7 +155,7 @@ def main(argv=None):
         if r.get('verdict') == 'MACHINERY':
             machinery.append('%s: %s\n%s' % (t['name'], r.get('message'), r.get('traceback', '')))
         if t['kind'] == 'call' and r.get('verdict') == 'VIOLATION':
-            rec = {'property': prop, 'family': t.get('family', t.get('fn')), 'case': t['name'],
+            rec = {'property': prop, 'family': r.get('family', t.get('family', t.get('fn'))), 'case': t['name'],
                    'params': r.get('params', t.get('params')), 'args': r.get('args'),
                    'key': r.get('key'), 'detail': r.get('detail')}
             if r.get('key') in tolerated:
